@@ -524,10 +524,17 @@ impl PartitionnedMonotonic<Intervals<f64>, (f64,), Term<Intervals<f64>, Unit>, f
         // Compute the shifted version of the set (by an integer number of period) and intersect with partitions
         let partition = move |set: Intervals<f64>| {
             let shift = ((*set.min().unwrap() - min) / period).floor();
-            let shifted = set
-                .clone()
-                .map_bounds(move |b| b - shift * period)
-                .union(set.map_bounds(|b| b - (shift + 1.) * period));
+            let shifted = if *set.max().unwrap() - *set.min().unwrap() >= period
+                || shift.abs() >= 1e6
+            {
+                // The set spans more than a period, every phase may be reached
+                // (or it is so far from 0 that the phase cannot be computed accurately)
+                domain.clone()
+            } else {
+                set.clone()
+                    .map_bounds(move |b| b - shift * period)
+                    .union(set.map_bounds(|b| b - (shift + 1.) * period))
+            };
             partitions
                 .as_ref()
                 .iter()
